@@ -25,7 +25,7 @@ ASSUMPTIONS = ['held workers use a cooperative target, so thread workers can be 
 SHRINK = 'greedy'
 SHRINK_RUNS = 25
 TIME_BUDGET = {'quick': 170, 'thorough': 1700}
-REQUIRED = {'quick': {'check_after_death': 150, 'concurrent_check': 60, 'autoclose': 40, 'restart': 30, 'retention_checked': 100, 'create_during_active_children': 40, 'check_via_subclass': 60, 'check_via_instance': 10, 'reference_dropped_while_running': 25, 'enumeration_interrupted_in_is_alive': 40},
+REQUIRED = {'quick': {'check_after_death': 150, 'concurrent_check': 60, 'autoclose': 40, 'restart': 30, 'retention_checked': 100, 'create_during_active_children': 40, 'check_via_subclass': 60, 'check_via_instance': 10, 'reference_dropped_while_running': 25, 'enumeration_interrupted_in_is_alive': 40, 'child_died_before_identity': 40},
             'thorough': {'check_after_death': 700, 'concurrent_check': 300, 'autoclose': 120}}
 KINDS = ['thread', 'process', 'remote', 'p_thread', 'p_process', 'p_remote']
 
@@ -52,6 +52,7 @@ def strategy(tier):
         st.tuples(st.just('create_unreferenced'), st.sampled_from(['process', 'process', 'p_process', 'remote', 'p_remote'])),
         st.tuples(st.just('check_during_create')),
         st.tuples(st.just('check_interrupted_in_probe')),
+        st.tuples(st.just('create_dying_process')),
         st.tuples(st.just('autoclose'), st.lists(st.sampled_from(['thread', 'process', 'p_thread', 'p_process', 'p_remote']), min_size=1, max_size=3)),
         st.tuples(st.just('burst'), st.sampled_from(['thread', 'p_thread']), st.integers(5, 40 if tier == 'quick' else 300)),
     )
@@ -112,6 +113,14 @@ def run_case(case, ctx):
             pass
 
     orphans = []         # dicts: pid, kind, path - live workers the harness no longer references
+
+    def enumerate_safely(where):
+        try:
+            return list(Worker.active_children())
+        except BaseException as e:
+            if type(e).__name__ != 'WorkerTerminatedError':
+                out.viol('active_children_raised:' + type(e).__name__, where, repr(e)[:200])
+            return []
 
     def do_check(nthreads, where, via=None):
         nonlocal finished_before_check
@@ -270,7 +279,7 @@ def run_case(case, ctx):
                         done.wait(0.3)      # with a properly locked registry the creator cannot finish before we go on
                 vworkers.ProbeThreadWorker.HOOK[0] = hook
                 try:
-                    list(Worker.active_children())
+                    enumerate_safely('enumeration')
                 finally:
                     vworkers.ProbeThreadWorker.HOOK[0] = None
                 done.wait(10)
@@ -278,6 +287,21 @@ def run_case(case, ctx):
                     workers.append({'w': created['w'], 'kind': 'thread', 'path': npath, 'mode': 'hold'})
                 do_check(0, 'check_after_concurrent_create')
                 log.append(['check_during_create', fired['n']])
+            elif what == 'create_dying_process':
+                # a process worker whose child dies before it could report its identity: whatever the constructor does (raise, or return a dead
+                # worker), the registry must stay usable and must not list it as alive
+                import vworkers
+                out.label('child_died_before_identity')
+                try:
+                    dw = vworkers.DyingProcessWorker(vtargets.quick_return, args=[1])     # (in this thread: the one that enumerates afterwards)
+                    workers.append({'w': dw, 'kind': 'process', 'path': None, 'mode': 'quick'})
+                    log.append(['create_dying_process', 'returned'])
+                except Blocked:
+                    out.viol('constructor_blocked', 'create_dying_process', '')
+                except BaseException as e:
+                    log.append(['create_dying_process', type(e).__name__])
+                dw = None
+                do_check(0, 'check_after_failed_construction')
             elif what == 'check_interrupted_in_probe':
                 # an asynchronous exception (a terminate request for the enumerating thread worker) surfaces exactly while active_children()
                 # is asking a registered worker whether it is alive: the enumeration may fail, the registry must not lose the live worker
@@ -296,7 +320,7 @@ def run_case(case, ctx):
                         raise WorkerTerminatedError('terminate called')
                 vworkers.ProbeThreadWorker.HOOK[0] = hook
                 try:
-                    list(Worker.active_children())
+                    enumerate_safely('enumeration')
                 except WorkerTerminatedError:
                     pass
                 finally:
@@ -363,7 +387,7 @@ def run_case(case, ctx):
         if dropped:
             out.label('retention_checked')
             multiprocessing.active_children()
-            list(Worker.active_children())
+            enumerate_safely('enumeration')
             gc.collect()
             kept = sorted(set(k for r, k in weak if r() is not None))
             if kept:
@@ -387,7 +411,7 @@ def run_case(case, ctx):
                 pass
         if orphans:
             time.sleep(0.1)
-            for c in list(Worker.active_children()):
+            for c in enumerate_safely('cleanup'):
                 try:
                     if getattr(c, 'pid', None) in {o['pid'] for o in orphans}:
                         bounded(c.terminate, 10, 1)
